@@ -18,18 +18,24 @@ def asBool : Sexp → Bool
   | .sym "T" => true
   | _ => false
 
-/-- `(uc (code isDigit isWord (upper code…)) …)` -/
-def ucOf (rows : List Sexp) : UC :=
-  let tbl : List (Nat × Bool × Bool × List Char × Nat) := rows.filterMap fun r =>
-    match r with
-    | .list [.int c, d, w, .list up, .int dv] => some (c.toNat, asBool d, asBool w, (up.filterMap asNat?).map Char.ofNat, dv.toNat)
-    | .list [.int c, d, w, .list up] => some (c.toNat, asBool d, asBool w, (up.filterMap asNat?).map Char.ofNat, 0)
-    | _ => none
-  let look (c : Char) := tbl.find? (fun e => e.1 == c.toNat)
-  { digit := fun c => match look c with | some e => e.2.1 | none => false
-    word := fun c => match look c with | some e => e.2.2.1 | none => false
-    upperOf := fun c => match look c with | some e => e.2.2.2.1 | none => [c]
-    digitOf := fun c => match look c with | some e => e.2.2.2.2 | none => 0 }
+/-- one row of the Unicode table: `(code isDigit isWord (upper code…) digitValue)`; anything else is an ERROR (a driver and
+    a harness of different versions must not agree by accident) -/
+def ucRow? : Sexp → Option (Nat × Bool × Bool × List Char × Nat)
+  | .list [.int c, d, w, .list up, .int dv] =>
+    if (up.all fun x => (asNat? x).isSome) then some (c.toNat, asBool d, asBool w, (up.filterMap asNat?).map Char.ofNat, dv.toNat)
+    else none
+  | _ => none
+
+/-- `(uc row …)`; `none` when a row is malformed -/
+def ucOf? (rows : List Sexp) : Option UC :=
+  if rows.all (fun r => (ucRow? r).isSome) then
+    let tbl := rows.filterMap ucRow?
+    let look (c : Char) := tbl.find? (fun e => e.1 == c.toNat)
+    some { digit := fun c => match look c with | some e => e.2.1 | none => false
+           word := fun c => match look c with | some e => e.2.2.1 | none => false
+           upperOf := fun c => match look c with | some e => e.2.2.2.1 | none => [c]
+           digitOf := fun c => match look c with | some e => e.2.2.2.2 | none => 0 }
+  else none
 
 def stmtSexp : Stmt → Sexp
   | .createTable k attrs => .list [.sym "table", txt k, .list (attrs.map fun a => .list [txt a.1, txt a.2])]
@@ -111,14 +117,12 @@ def buildSexp (u : UC) : Except BuildErr BState → Sexp
   | .error .parseErr => .sym "parsing"
   | .error .metaErr => .sym "meta"
   | .error .builtinErr => .sym "builtin"
-  | .error .unmodelled => .sym "unmodelled"
   | .ok s => .list [.sym "ok", .list (s.classes.map (classBSexp u)), .list ((s.toMM u).assocs.map assocMSexp)]
 
 def outcomeSexp : Except BuildErr BState → Sexp
   | .error .parseErr => .sym "parsing"
   | .error .metaErr => .sym "meta"
   | .error .builtinErr => .sym "builtin"
-  | .error .unmodelled => .sym "unmodelled"
   | .ok _ => .sym "ok"
 
 end Pyx.Sql.Wire
